@@ -30,4 +30,24 @@ theorem tie_round_shape (h w : Rat) :
   simp only [Gen.round_shape, C13.roundDim, pyAbsQ_eq, C13.eps8, C13.c01, a, b, a', b', roundHalfEven_intCast,
     decide_true, decide_false, if_true, if_false] <;> simp
 
+/-- numpy's `allclose` element test (Gen/Prelude) is the model's `close1` -/
+theorem npClose_eq (a b : Rat) : Gen.npClose a b = C13.close1 a b := by
+  simp only [Gen.npClose, C13.close1, pyAbsQ_eq]
+
+theorem tie_validate_variable2 (g : Option C13.P2) (f : C13.P2) :
+    Gen.validate_variable2 g f = C13.validate2 g f := by
+  cases g with
+  | none => simp [Gen.validate_variable2, C13.validate2]
+  | some v =>
+    simp only [Gen.validate_variable2, C13.validate2, Gen.npAllclose2, C13.close2, npClose_eq]
+    by_cases h : (C13.close1 v.1 f.1 && C13.close1 v.2 f.2) = true <;> simp [h]
+
+theorem tie_validate_variable4 (g : Option C13.P4) (f : C13.P4) :
+    Gen.validate_variable4 g f = C13.validate4 g f := by
+  cases g with
+  | none => simp [Gen.validate_variable4, C13.validate4]
+  | some v =>
+    simp only [Gen.validate_variable4, C13.validate4, Gen.npAllclose4, C13.close4, npClose_eq]
+    by_cases h : (C13.close1 v.1 f.1 && C13.close1 v.2.1 f.2.1 && C13.close1 v.2.2.1 f.2.2.1 && C13.close1 v.2.2.2 f.2.2.2) = true <;> simp [h]
+
 end PyresampleModel.Tie
